@@ -36,6 +36,23 @@ func GenericFasta(r *rand.Rand, n int) []byte {
 	return []byte(sb.String())
 }
 
+// ObicleanFasta renders n records as obiclean leaves them: every record has an obiclean_status map;
+// some records lack the obiclean_weight map (annotations edited afterwards).
+func ObicleanFasta(r *rand.Rand, n int) []byte {
+	var sb strings.Builder
+	for i := 0; i < n; i++ {
+		seq := DNA(r, 20+r.Intn(180))
+		st := []string{"h", "i", "s"}[r.Intn(3)]
+		smp := fmt.Sprintf("s%d", r.Intn(4))
+		w := ""
+		if r.Intn(10) < 7 {
+			w = fmt.Sprintf(`,"obiclean_weight":{"%s":%d}`, smp, 1+r.Intn(50))
+		}
+		fmt.Fprintf(&sb, ">seq%05d {\"count\":%d,\"sample\":\"%s\",\"obiclean_status\":{\"%s\":\"%s\"}%s}\n%s\n", i, 1+r.Intn(9), smp, smp, st, w, seq)
+	}
+	return []byte(sb.String())
+}
+
 // GenericFastq renders n FASTQ records with JSON title annotations.
 func GenericFastq(r *rand.Rand, n int) []byte {
 	var sb strings.Builder
@@ -58,8 +75,18 @@ func ReadPairs(r *rand.Rand, n, rl int) (fwd, rev []byte) {
 			a[r.Intn(rl)] = ACGT[r.Intn(4)]
 			b[r.Intn(rl)] = ACGT[r.Intn(4)]
 		}
-		fmt.Fprintf(&f, "@pair%05d\n%s\n+\n%s\n", i, a, qualLine(r, rl))
-		fmt.Fprintf(&v, "@pair%05d\n%s\n+\n%s\n", i, b, qualLine(r, rl))
+		// a few reads are what a quality trimmer leaves: 1 to 12 bases (shorter than a 4-mer, than the
+		// minimal overlap)
+		if k := r.Intn(40); k < 2 {
+			cut := []int{1, 2, 3, 4, 5, 12}[r.Intn(6)]
+			if k == 0 {
+				a = a[:cut]
+			} else {
+				b = b[:cut]
+			}
+		}
+		fmt.Fprintf(&f, "@pair%05d\n%s\n+\n%s\n", i, a, qualLine(r, len(a)))
+		fmt.Fprintf(&v, "@pair%05d\n%s\n+\n%s\n", i, b, qualLine(r, len(b)))
 	}
 	return []byte(f.String()), []byte(v.String())
 }
